@@ -308,7 +308,7 @@ def jobs(tier, seed):
                           opts={'raises': 'minmax'}, dev_bound=4))
     for j in out:
         j.setdefault('state_cap', 100000 if th else 8000)
-        j.setdefault('time_cap', 700 if th else 70)
+        j.setdefault('time_cap', 1800 if th else 400)
     return out
 
 
